@@ -46,7 +46,11 @@ pub fn parse_resolve_request(request: spec::ResolveParams) -> Result<(AnyTir, Ar
     let params = tx3_tir::reduce::find_params(&tir);
     let mut args = ArgMap::new();
 
-    for (key, val) in request.args {
+    // declared parameters may be supplied under `env` as well as under `args`; an
+    // explicit argument takes precedence over an environment value of the same name
+    let env = request.env.unwrap_or_default();
+
+    for (key, val) in env.into_iter().chain(request.args) {
         if let Some(ty) = params.get(&key) {
             let arg = interop::from_json(val.clone(), &ty)?;
             args.insert(key, arg);
